@@ -64,8 +64,8 @@ def run(chk, tier):
                 real = real.replace("#[derive(Debug, derive_more::Display)]", "#[derive(::core::fmt::Debug, derive_more::Display)]")
                 item = "#[derive(derive_more::%s)] %s" % (derive, real)
                 item = item.replace(": Clone)", ": ::core::clone::Clone)")   # a user-written bound: spell it absolutely
-                uses = "#[allow(unused_imports)] use ::derive_more; #[allow(unused_imports)] use super::super::{H, Tr, Tr2}; #[allow(unused_imports)] use ::core::marker::PhantomData;"
-                uses2 = "#[allow(unused_imports)] use super::super::{H, Tr, Tr2}; #[allow(unused_imports)] use ::core::marker::PhantomData;"
+                uses = "#[allow(unused_imports)] use ::derive_more; #[allow(unused_imports)] use super::super::{H, Tr, Tr2, We}; #[allow(unused_imports)] use ::core::marker::PhantomData;"
+                uses2 = "#[allow(unused_imports)] use super::super::{H, Tr, Tr2, We}; #[allow(unused_imports)] use ::core::marker::PhantomData;"
                 for scope, body in (("no_prelude", "#[no_implicit_prelude]\npub mod m {\n    %s\n    %s\n}" % (uses, item)),
                                     ("shadowed", "pub mod m {\n    %s\n    %s\n    %s\n}" % (uses2, hostile_scope2(), item)),
                                     ("colliding_methods", "pub mod m {\n    %s\n    %s\n    %s\n}" % (uses2, hostile_scope3(), item))):
